@@ -170,12 +170,17 @@ RebindNeeded(v, c) ==
   \/ vm[v].keySeen # cache[c].key
   \/ vm[v].memPtr # cache[c].m
   \/ (IdentityCheck /\ vm[v].cachePtr # cache[c].s)
+\* on a full-memory VM the call is allowed too: the base class ignores the cache, only the remembered key is updated; the VM keeps
+\* hashing over its dataset
 SetCache(v, c) ==
-  /\ vm[v].live /\ IsLight(vm[v].kind) /\ vm[v].pend = None
+  /\ vm[v].live /\ vm[v].pend = None
   /\ cache[c].live /\ cache[c].key # None
-  /\ vm' = [vm EXCEPT ![v] = IF RebindNeeded(v, c) THEN BindCache(vm[v], c) ELSE vm[v]]
-  /\ bnd' = [bnd EXCEPT ![v] = c]
-  /\ stale' = [stale EXCEPT ![v] = FALSE]
+  /\ IF IsLight(vm[v].kind)
+     THEN /\ vm' = [vm EXCEPT ![v] = IF RebindNeeded(v, c) THEN BindCache(vm[v], c) ELSE vm[v]]
+          /\ bnd' = [bnd EXCEPT ![v] = c]
+          /\ stale' = [stale EXCEPT ![v] = FALSE]
+     ELSE /\ vm' = [vm EXCEPT ![v].keySeen = cache[c].key]
+          /\ UNCHANGED <<bnd, stale>>
   /\ UNCHANGED <<cache, sOwner, mOwner, mContent, ds, dOwner, rc, last>>
 
 \* on a light VM the call is allowed and has no effect (the light classes override setDataset with an empty body)
